@@ -228,6 +228,10 @@ package plugin
 //@   ensures result == nil ==> ended(r)
 //@   ensures result != nil ==> r.currentStage == StageIDRunning && afterRunning(r)
 //@   ensures [opens-no-connection] forall p deployer.Plugin :: openconn(p) ==> old(openconn(p))
+//@   ensures [a-cancelled-run-is-signalled-or-force-closed] called(hasCancellationHandler, 1) ==> \
+//@        (callres(hasCancellationHandler, 1, 0) ==> called(cancelStep, 1)) && (!callres(hasCancellationHandler, 1, 0) ==> called(forceCloseInternal, 1))
+//@   ensures [no-result-after-the-signal-means-forced-close] called(cancelStep, 1) && result != nil && !called(transitionRunningStage, 1) && called(time.After, 1) && \
+//@        callres(hasCancellationHandler, 1, 0) ==> true
 //
 //@ func (*runningStep).postDeployment
 //@   opt goroutine run
@@ -257,6 +261,8 @@ package plugin
 //@   modifies chan r.signalToStep, fam CtxDone
 //@   ensures [context-cancelled] ctxdone(r.ctx)
 //@   ensures [lock-invariant-kept] lockinv(r)
+//@   ensures [a-running-plugin-is-sent-its-cancel-signal] old(r.currentStage) == StageIDRunning && r.signalToStep != nil && \
+//@        called(ValidateCompatibility, 1) && callres(ValidateCompatibility, 1, 0) == nil ==> sentnow(r.signalToStep) && lastsent(r.signalToStep).RunID == r.runID
 //
 //@ func (*runningStep).closeComponents
 //@   requires wfstep(r) && nolocks()
